@@ -3,7 +3,7 @@
    model (coq/c07/C07Model.v); E and D are arbitrary functions from key and block to block. *)
 From V.lib Require Import Base.
 From V.c07 Require Import C07Model.
-From V.c06 Require Import C06Model C06StructProofs C06CencProofs C06CbcsProofs.
+From V.c06 Require Import C06Model C06StructProofs C06CencProofs C06CbcsProofs C06SampleProofs.
 
 (* cenc: crypting twice with the same key, IV and sub-sample map restores the sample — for EVERY block function
    E, every map (empty = whole sample, partial last block, clear runs > 65535, even overlapping or wrapping
@@ -47,6 +47,34 @@ Theorem C06_fragment_roundtrip : forall start cs mdat_hdr saiz_sz senc_sz ids,
   = Ok (layout start cs mdat_hdr).
 Proof. exact fragment_struct_roundtrip. Qed.
 Print Assumptions C06_fragment_roundtrip.
+
+(* IV sequence + sample round trip, cenc: decryptSamplesInPlace, fed with the IVs and sub-sample lists that the
+   per-sample loop of EncryptFragment stored (as the senc decoder returns them), decrypts sample i with the IV and
+   map stored for sample i and returns the clear samples — every E, every protection function, 8-byte inputs
+   included (EncryptFragment pads them to 16 bytes before the loop) *)
+Theorem C06_iv_sequence_cenc :
+  forall (E D : list N -> list N -> list N) (protfunc : list N -> res (list ssp)) (key iv : list N)
+         (samples : list (list N)) (encs : list enc_sample) (cb sb : N) (constiv : list N),
+  length iv = 16%nat ->
+  encrypt_samples_cenc E protfunc key iv samples = Ok encs ->
+  decrypt_samples E D Cenc key constiv cb sb (decoded_ivs encs) (decoded_subs encs) (map e_data encs) = Ok samples.
+Proof. exact samples_roundtrip_cenc. Qed.
+Print Assumptions C06_iv_sequence_cenc.
+
+(* cbcs: no per-sample IV is stored; the decrypt side starts every sample from tenc's constant IV, which is the
+   encryption IV, and returns the clear samples *)
+Theorem C06_iv_sequence_cbcs :
+  forall (E D : list N -> list N -> list N) (protfunc : list N -> res (list ssp)) (key iv : list N) (cb sb : N),
+  (forall k b, length (E k b) = 16%nat) ->
+  (forall k b, length (D k b) = 16%nat) ->
+  (forall k b, length b = 16%nat -> D k (E k b) = b) ->
+  key_ok key = true -> length iv = 16%nat ->
+  forall (samples : list (list N)) (encs : list enc_sample),
+  encrypt_samples_cbcs E D protfunc key iv cb sb samples = Ok encs ->
+  (forall s ssps, In s samples -> protfunc s = Ok ssps -> fits s ssps) ->
+  decrypt_samples E D Cbcs key iv cb sb (decoded_ivs encs) (decoded_subs encs) (map e_data encs) = Ok samples.
+Proof. exact samples_roundtrip_cbcs. Qed.
+Print Assumptions C06_iv_sequence_cbcs.
 
 (* ---------------------------------------------------------------- examples *)
 (* the defect of the pinned tree (fixed by the `fix:` commit): traf{tfhd, tfxd-uuid} lost its uuid box and no
